@@ -1,8 +1,8 @@
 """Child for C23: generate a tiny Modelica model with the real CasADi backend and report either the
 exception class or the array elements the equation(s) selected.
 
-case = {"text": <Modelica source of model M>, "dims": [n] | [n, m], "params": {name: int}}
-The array is always the algebraic variable `x`.  Element (r, c) (1-based; c = 1 for 1-D) is given the value
+case = {"text": <Modelica source of model M>, "dims": [n] | [n, m] | [], "params": {name: int}, "target": name}
+The subscripted symbol is the algebraic variable `target` (default `x`; `a.x` / `a.v` for members of components).  Element (r, c) (1-based; c = 1 for 1-D) is given the value
 1000*r + 100*c, every other variable 0, every parameter its declared value; the residual of the
 single equation / for-equation `x[..] = rhs` (rhs = 0, or the loop variable) is evaluated, so residual
 entry = 1000*r + 100*c - rhs identifies the selected element (and the loop iteration it was used in).
@@ -21,7 +21,8 @@ def handler(case):
     if tree is None:
         return {"exc": "ParseError", "msg": "parser returned None"}
     m = generator.generate(tree, "M", {})
-    dims = case["dims"]
+    dims = case["dims"]          # [] = take the shape from the symbol (scalars, members of components)
+    target = case.get("target", "x")
     f = m.dae_residual_function
     if f.n_out() == 0:
         return {"sel": [], "neq": 0}
@@ -30,8 +31,9 @@ def handler(case):
         out = []
         for v in vars_:
             s = v.symbol
-            if s.name() == "x":
-                assert list(s.shape) == [dims[0], dims[1] if len(dims) > 1 else 1], (s.shape, dims)
+            if s.name() == target:
+                if dims:
+                    assert list(s.shape) == [dims[0], dims[1] if len(dims) > 1 else 1], (s.shape, dims)
                 # veccat is column-major
                 out += [1000 * (r + 1) + 100 * (c + 1) for c in range(s.shape[1]) for r in range(s.shape[0])]
             else:
@@ -44,8 +46,8 @@ def handler(case):
             vec(m.alg_states, lambda n: 0.0), vec(m.inputs, lambda n: 0.0),
             vec(m.constants, lambda n: float(params.get(n, 0))),
             vec(m.parameters, lambda n: float(params[n]))]
-    if "x" not in [v.symbol.name() for v in m.alg_states]:
-        return {"other": "x is not an algebraic state"}
+    if target not in [v.symbol.name() for v in m.alg_states]:
+        return {"other": "%s is not an algebraic state" % target}
     out = np.array(f(*args)).flatten(order="F")
     sel = []
     for v in out:
